@@ -120,6 +120,8 @@ def main(tier, replay=None):
         for k in range(nschemas):
             prog, rng = gen.rand_case(seed, k, big_arrays=(k % 10 == 0),
                                       p_enum_nonzero_first=0.05 if k % 7 == 0 else 0.0)
+            if k % 8 == 3:
+                prog = gen.wrap_diamond(prog, rng)   # three files: app imports main and the file main imports
             t = prog["rtype"]
             vals = [gen.gen_value(rng, t, "zero"), gen.gen_value(rng, t, "ones")]
             vals += [gen.gen_value(rng, t, "rand") for _ in range(nvalues - 2)]
